@@ -44,6 +44,11 @@ def run(repo: Repo, rep: Report, tier: str) -> None:
 
     # ---- store-key -----------------------------------------------------------
     ins = [s for s in walk_no_nested(rp) if isinstance(s, ast.Assign) and isinstance(s.targets[0], ast.Subscript) and norm(s.targets[0].value) == "self.cancel_req"]
+    for rb in [s_ for s_ in walk_no_nested(rp) if isinstance(s_, ast.Assign) and norm(s_.targets[0]) == "self.cancel_req"]:
+        rep.fail("store-key", fq, rb, "receive_primitive replaces the whole table of pending C-CANCEL requests when one arrives: a C-CANCEL that named another Message ID and was not yet looked at is dropped, so the operation it names is never told", mod=dm, node=rb)
+    if not ins and rep.failures:
+        rep.defer(f"{fq}: no keyed insertion into cancel_req (the rest of the store-key rule is not applicable)")
+        return
     rep.need(len(ins) >= 1, f"{fq}: insertion into cancel_req vanished")
     rep.check(len(ins) == 1, "store-key", fq, f"{len(ins)} insertions into cancel_req", "exactly one insertion site", mod=dm, node=rp)
     s = ins[0]
